@@ -180,6 +180,7 @@ type opt struct {
 	fastChan     bool              // disable cancellable chan operations
 	specialStdio bool              // allows os.Stdin, os.Stdout, os.Stderr to not be file descriptors
 	unrestricted bool              // allow use of non-sandboxed symbols
+	ownArgs      bool              // args are set from Options, not inherited from the host process
 }
 
 // Interpreter contains global resources and state.
@@ -350,6 +351,8 @@ func New(options Options) *Interpreter {
 
 	if i.opt.args = options.Args; i.opt.args == nil {
 		i.opt.args = os.Args
+	} else {
+		i.opt.ownArgs = true
 	}
 
 	// unrestricted allows to use non sandboxed stdlib symbols and env.
